@@ -440,6 +440,22 @@ def gen_srv(r, n, tier, rtu_mode=False, with_auth=None):
                 if not rtu_request_delimitable(pdu):
                     pdu = valid_request(r, hint)
             stream.append(frame(r.below(65536), unit, pdu))
+        if stream and r.chance(1, 8):
+            # a framing error in the middle of the session (bad CRC / bad MBAP header): nothing of
+            # that frame reaches a handler, the session ends there, what follows is not served
+            i = r.below(len(stream))
+            f = bytearray(stream[i])
+            if rtu_mode:
+                f[r.below(len(f))] ^= 1 << r.below(8)
+            else:
+                k = r.below(3)
+                if k == 0:
+                    f[2:4] = be16(r.pick([1, 256, 0xFFFF]))           # protocol id
+                elif k == 1:
+                    f[4:6] = be16(0)                                   # length 0
+                else:
+                    f[4:6] = be16(r.pick([255, 256, 1000, 0xFFFF]))    # length too big
+            stream[i] = bytes(f)
         data = b"".join(stream)
         steps = []
         if r.chance(1, 2):
@@ -1255,6 +1271,8 @@ def gen_pty_cli(r, n, tier):
             if not rtu_response_delimitable(pdu):
                 pdu = good_reply(r, d)
             f = rtu(unit, pdu)
+            if r.chance(1, 8):
+                f = xor_at(f, [8 * (len(f) - 1 - r.below(2)) + r.below(8)])     # a bit error in the CRC
             if r.chance(1, 5) and len(f) > 3:
                 kcut = r.rng(1, len(f) - 1)
                 steps += [f"a{hx(f[:kcut])}", "~20", f"a{hx(f[kcut:])}"]
@@ -1592,7 +1610,11 @@ def cl_next_step(r, sc, st, focus):
                 pdu = good_reply(r, d)
             return cl_frame(sc.fr, t % 65536, unit, pdu)
         if k < 7:       # the genuine (or perturbed) reply, whole
-            return "X" + hx(fr(tx, reply_variant(r, d) if r.chance(1, 3) else good_reply(r, d)))
+            f = fr(tx, reply_variant(r, d) if r.chance(1, 3) else good_reply(r, d))
+            if sc.fr == "r" and r.chance(1, 6):
+                # transmission error: one or two flipped bits / a short burst in the framed reply
+                f = xor_at(f, sorted({r.below(8 * len(f)) for _ in range(r.pick([1, 1, 2]))}))
+            return "X" + hx(f)
         if k < 10:      # split reply
             f = fr(tx, good_reply(r, d))
             cut = r.rng(1, max(1, len(f) - 1))
@@ -1813,6 +1835,15 @@ def decode_variants(r, case):
             t[di] = r.pick(["d000", "d322"])
             t[si] = ",".join(st)
             out.append(" ".join(t))
+        if len(steps) <= 8:
+            # short scripts: one level change at EVERY position (the property's quantifier)
+            for pos in range(len(steps) + 1):
+                st = list(steps)
+                st.insert(pos, mk(r.pick(["d322", "d000", "d111"])))
+                t = list(tok)
+                t[di] = "d000" if pos % 2 else "d322"
+                t[si] = ",".join(st)
+                out.append(" ".join(t))
     return out
 
 
